@@ -290,7 +290,7 @@ class Ex2(ZooModel):
 class Tie2(GaussU):
     """Gaussian likelihood rounded to a coarse grid: many exact ties and plateaus."""
 
-    def __init__(self, d=2, step=0.25, **kw):
+    def __init__(self, d=2, step=0.1, **kw):
         super().__init__(d=d, **kw)
         self.step = step
 
